@@ -193,10 +193,10 @@ Definition dispatch (fname : str) (args : list json) : json :=
     end
   else if str_eqb fname (s2l "events") then
     match args with
-    | [JBool a; JBool b; JBool c; JArr srcs] =>
+    | [JBool a; JBool b; JBool c; JBool st; JArr srcs] =>
       match map_opt (fun h => match h with JArr [JStr u; JStr d] => Some (u, d) | _ => None end) srcs with
       | Some l =>
-        match enum_sources (mk_options a b c) 0 l with
+        match enum_sources (mk_options a b c st) 0 l with
         | Some (es, i) => JObj [jk "envelopes" (JArr (map j_envelope es)); jk "idc" (JNum i)]
         | None => JObj [jk "crash" JNull]
         end
